@@ -588,6 +588,8 @@ def run(ctx):
         cfgs = ["dbg", "rel"]
     corr = evaluate(ctx, plan, cfgs)
     tie.merge(corr)
+    if ctx.quick and tie.changed():
+        corr.info["deepened"] = True
     corr.notes.append("exhaustive part: every well-typed history up to the tier's length over the listed slots / types / operation kinds "
                       "(first operation a constructor); random part seeded; every history ends by destroying all slots (leak check)")
     return corr
